@@ -187,12 +187,19 @@ Definition bi_add (sp:span) (argv:list value) : Comp value :=
       end end.
 Definition int_div (a d:Z) : Z := let v := a / d in if v <? 0 then - ((- a) / d) else v.       (* regenerated kernel *)
 Definition int_rem (a d:Z) : Z := if 0 <=? a / d then a mod d else - ((- a) mod d).            (* regenerated kernel *)
+(* an operand of a real operation: a double, or an integer converted to the nearest double (None = too large: CPython's OverflowError) *)
+Definition as_float (v:value) : option spec_float := match v with VFloat f => Some f | VInt n => float_of_int n | _ => None end.
+Definition real_binop (sp:span) (op:spec_float -> spec_float -> fres) (a d:value) : Comp value :=
+  match as_float a, as_float d with
+  | Some x, Some y => match op x y with FOk v => Ret (VFloat v) | FZeroDiv => raise c_div sp | FDomain => raise c_arith sp end
+  | _, _ => raise c_arith sp       (* repaired: host OverflowError *)
+  end.
 Definition bi_div (sp:span) (argv:list value) : Comp value :=
   vs <- match_arguments sp argv is_num [2%nat] ;;
-  match vs with [VInt a; VInt d] => if d =? 0 then raise c_div sp else Ret (VInt (int_div a d)) | [_; _] => raise c_unmodelled sp | _ => raise c_type sp end.
+  match vs with [VInt a; VInt d] => if d =? 0 then raise c_div sp else Ret (VInt (int_div a d)) | [a; d] => real_binop sp py_truncdiv a d | _ => raise c_type sp end.
 Definition bi_mod (sp:span) (argv:list value) : Comp value :=
   vs <- match_arguments sp argv is_num [2%nat] ;;
-  match vs with [VInt a; VInt d] => if d =? 0 then raise c_div sp else Ret (VInt (int_rem a d)) | [_; _] => raise c_unmodelled sp | _ => raise c_type sp end.
+  match vs with [VInt a; VInt d] => if d =? 0 then raise c_div sp else Ret (VInt (int_rem a d)) | [a; d] => real_binop sp py_fmod a d | _ => raise c_type sp end.
 
 (* ---------- logic.py ---------- *)
 Fixpoint equals_loop (argv:list value) (k0:option value) : Comp value :=
@@ -222,8 +229,8 @@ Fixpoint zipd (ks vs:list value) (acc:list (value*value)) : list (value*value) :
 Definition bi_dict (sp:span) (argv:list value) : Comp value :=
   if Nat.odd (length argv) then raise c_value sp else
   ks <- map_call PDeep (evens argv) ;;
-  keys <- map_call PKey ks ;;           (* as_key of each key (forces nested content; already deep-strict) *)
-  Ret (VDict (zipd ks (odds argv) [])).
+  keys <- map_call PKey ks ;;           (* as_key of each key: forces nested content, including the arguments of action values *)
+  Ret (VDict (zipd keys (odds argv) [])).      (* entries are found by their keys (Python: mapping keyed by as_key) *)
 Definition bi_list (sp:span) (argv:list value) : Comp value := Ret (VList argv).
 Definition bi_string (sp:span) (argv:list value) : Comp value :=
   vs <- match_arguments sp argv (orp is_num is_str) [0%nat; 1%nat] ;;
@@ -336,11 +343,22 @@ Fixpoint egcd (fuel:nat) (a b:Z) : Z * Z * Z :=          (* g, x, y with a*x + b
   match fuel with O => (a, 1, 0) | S f => if b =? 0 then (a, 1, 0) else let '(g, x, y) := egcd f b (a mod b) in (g, y, x - (a / b) * y) end.
 Definition modinv (b m:Z) : option Z :=
   let '(g, x, _) := egcd (S (Z.to_nat (2 * Z.log2 (Z.abs b + m) + 2))) (b mod m) m in if g =? 1 then Some (x mod m) else None.
+(* real powers are libm's pow and are outside the model, EXCEPT the exact case (a positive power of two) ** integer while the result is a normal double:
+   2^k is the double with mantissa 2^52 and exponent k - 52, and libm's pow is exact there *)
+Definition pow2_exp (v:value) : option Z :=
+  match v with
+  | VFloat (S754_finite false m x) => if Zpos m =? 2 ^ 52 then Some (x + 52) else None
+  | VInt (Zpos m) => if Zpos m =? 2 ^ Z.log2 (Zpos m) then Some (Z.log2 (Zpos m)) else None
+  | _ => None end.
+Definition pow2_result (k e:Z) : option value :=
+  let K := k * e in if (-1022 <=? K) && (K <=? 1023) then Some (VFloat (S754_finite false (Z.to_pos (2 ^ 52)) (K - 52))) else None.
 Definition bi_pow (sp:span) (argv:list value) : Comp value :=
   vs <- match_arguments sp argv is_num [2%nat; 3%nat] ;;
   match vs with
+  | [VFloat f; VInt e] => match pow2_exp (VFloat f) with Some k => match pow2_result k e with Some v => Ret v | None => raise c_unmodelled sp end | None => raise c_unmodelled sp end
   | [VFloat _; _] | [_; VFloat _] => raise c_unmodelled sp
-  | [VInt b; VInt e] => if 0 <=? e then Ret (VInt (b ^ e)) else if b =? 0 then raise c_div sp else raise c_unmodelled sp
+  | [VInt b; VInt e] => if 0 <=? e then Ret (VInt (b ^ e)) else if b =? 0 then raise c_div sp else
+      match pow2_exp (VInt b) with Some k => match pow2_result k e with Some v => Ret v | None => raise c_unmodelled sp end | None => raise c_unmodelled sp end
   | [VInt b; VInt e; VInt m] =>
       let m' := Z.abs m in
       if m' =? 0 then raise c_arith sp
